@@ -499,6 +499,42 @@ fn fold_constraint_set(
     char_set: Option<&BTreeMap<usize, char>>,
     range_constraint: bool,
 ) -> Result<Option<SubtypeElements>, GrammarError> {
+    // X.680 clause 50: EXCEPT binds tighter than INTERSECTION, which binds tighter than UNION.
+    // The lexer nests a chain `a op1 b op2 c` to the right, as `a op1 (b op2 c)`,
+    // so an operator that binds tighter than its successor has to be folded first.
+    if let ElementOrSetOperation::SetOperation(next) = &*set.operant {
+        if precedence(&set.operator) > precedence(&next.operator) {
+            let left = fold_constraint_set(
+                &SetOperation {
+                    base: set.base.clone(),
+                    operator: set.operator.clone(),
+                    operant: Box::new(ElementOrSetOperation::Element(next.base.clone())),
+                },
+                char_set,
+                range_constraint,
+            )?;
+            return match (left, &next.operator) {
+                (Some(left), _) => fold_constraint_set(
+                    &SetOperation {
+                        base: left,
+                        operator: next.operator.clone(),
+                        operant: next.operant.clone(),
+                    },
+                    char_set,
+                    range_constraint,
+                ),
+                // Without a PER-visible bound on the left, a UNION has none either,
+                // and an INTERSECTION is bounded by its right-hand side alone
+                (None, SetOperator::Union) => Ok(None),
+                (None, _) => match &*next.operant {
+                    ElementOrSetOperation::Element(e) => Ok(e.per_visible().then(|| e.clone())),
+                    ElementOrSetOperation::SetOperation(s) => {
+                        fold_constraint_set(s, char_set, range_constraint)
+                    }
+                },
+            };
+        }
+    }
     let folded_operant = match &*set.operant {
         ElementOrSetOperation::Element(e) => e.per_visible().then(|| e.clone()),
         ElementOrSetOperation::SetOperation(s) => {
@@ -878,6 +914,14 @@ fn fold_constraint_set(
                 Ok(None)
             }
         }
+    }
+}
+
+fn precedence(operator: &SetOperator) -> u8 {
+    match operator {
+        SetOperator::Union => 0,
+        SetOperator::Intersection => 1,
+        SetOperator::Except => 2,
     }
 }
 
